@@ -1,9 +1,28 @@
 import TsrunVerif.Model.Num
+import TsrunVerif.Model.RadixLit
 
 namespace TsrunVerif.Driver
 open TsrunVerif.Num
 
 def optNat (s : String) : Option Nat := s.toNat?
+
+/-- `0x…` / `0o…` / `0b…` (with `_` separators) → (bits per digit, digits) -/
+def radixDigits (cs : List Char) : Option (Nat × List Nat) :=
+  let digit (c : Char) : Option Nat :=
+    if c.isDigit then some (c.toNat - 48)
+    else if 'a' ≤ c ∧ c ≤ 'f' then some (c.toNat - 87)
+    else if 'A' ≤ c ∧ c ≤ 'F' then some (c.toNat - 55)
+    else none
+  match cs with
+  | '0' :: p :: rest =>
+    let k : Option Nat := if p == 'x' || p == 'X' then some 4 else if p == 'o' || p == 'O' then some 3 else if p == 'b' || p == 'B' then some 1 else none
+    match k with
+    | none => none
+    | some k =>
+      match (rest.filter (· != '_')).mapM digit with
+      | some ds => if ds.isEmpty || ds.any (fun d => d ≥ 2 ^ k) then none else some (k, ds)
+      | none => none
+  | _ => none
 
 /-- case lines:
   `S <bits>`          Number::toString          `I <bits>`  ToInt32,ToUint32
@@ -42,9 +61,17 @@ def numLine (line : String) : String :=
     | some a, some b => toString (bitop op (decode a) (decode b))
     | _, _ => "bad-case"
   | ["X", t] =>
-    match parseDecimal t.toList with
-    | some (d, x) => toString (decToBits d x)
-    | none => "nan"
+    match radixDigits t.toList with
+    | some (k, ds) =>
+      -- a 0x / 0o / 0b literal: M-RadixLit yields the exact integer, whose bit pattern `roundRat` gives (no rounding left to do)
+      let a := TsrunVerif.RadixLit.scan k ds
+      let m := TsrunVerif.RadixLit.mant a
+      let v := if m < 2 ^ 53 then m * 2 ^ a.dropped else TsrunVerif.RadixLit.literal k ds (m.log2 - 52)
+      toString (roundRat v 1)
+    | none =>
+      match parseDecimal t.toList with
+      | some (d, x) => toString (decToBits d x)
+      | none => "nan"
   | ["D", t] =>
     match parseDecimal t.toList with
     | some (d, x) => toString (decToBits d x)
